@@ -172,10 +172,12 @@ PROPS = {
         facts=True,
         families=[dict(name="tree", args=["-specs", "1,12"]), dict(name="hist", args=["-specs", "1,12"]),
                   dict(name="pipe", args=["-specs", "1,12", "-n", "10"]), dict(name="fault", args=["-specs", "48"]),
-                  dict(name="remote", args=["-specs", "32,33"]), dict(name="race", race=True)],
+                  dict(name="remote", args=["-specs", "32,33,36"]), dict(name="race", race=True)],
         level_text="Theorems C02_history / C02_step / C02_commit / C02_initial: for every history of commands of the "
                    "whole-program model from any state with a well-formed cache (in particular the empty one), every "
-                   "object is keyed by the hash of its bytes with mode 0444 and no object ever changes or disappears. "
+                   "object is keyed by the hash of its bytes with mode 0444 and no object ever changes or disappears; "
+                   "C02_history_with_transfers extends this to histories that mix local commands with push, fetch and "
+                   "transfers aborted part-way (local cache AND remote). "
                    "Tied to the code by re-hashing, inside Coq with the Gallina BLAKE3, every new or changed object of "
                    "the observed cache after every command of tree, edit-history and pipeline scenarios (both strategies, "
                    "rename-able and cross-device caches), and checking monotonicity against the previous observation.",
